@@ -9156,6 +9156,14 @@ class SVG(Group):
                     del values[SVG_ATTR_CLASS]
                 if SVG_ATTR_CLIP_PATH in values:
                     del values[SVG_ATTR_CLIP_PATH]
+                for geometry in (
+                    SVG_ATTR_X,
+                    SVG_ATTR_Y,
+                    SVG_ATTR_WIDTH,
+                    SVG_ATTR_HEIGHT,
+                ):
+                    if geometry in values:
+                        del values[geometry]
 
                 attributes = dict(elem.attrib)  # priority; lowest
                 attributes[SVG_ATTR_TAG] = tag
